@@ -2,7 +2,7 @@
 From Coq Require Import Sorted.
 Require Import Riti.model.Base Riti.model.Chars Riti.model.Split Riti.model.Rank Riti.model.Layout Riti.model.Phonetic
         Riti.model.FixedCompose Riti.model.FixedSuggest Riti.gen.Gen_Tables Riti.model.TestOracle
-        Riti.proofs.Rank_Proof Riti.proofs.Lists_Proof Riti.proofs.Order_Proof Riti.proofs.Fixed_Proof.
+        Riti.proofs.Rank_Proof Riti.proofs.Lists_Proof Riti.proofs.Order_Proof Riti.proofs.Fixed_Proof Riti.proofs.NoRepeat_Proof.
 
 (** For EVERY dictionary, emoji table, option set, composed text and raw key text: *)
 Theorem C15_first_is_composed_text :
@@ -42,8 +42,58 @@ Theorem C15_english_last :
     last (dictionary_suggestion Q c buffer typed) (RFirst []) = RLast typed 1.
 Proof. exact ds_english_last. Qed.
 
-(** "none repeats" is a property of the data (consecutive repeats are removed by dedup; the dictionary has one
-    repeated word, non-adjacent in its table) - judged on every list by the stream's monitor. *)
+(** "none repeats".  Vec::dedup removes neighbouring repeats only, so the clause rests on the data: whenever the texts the
+    dictionary contributes for the word (the word itself, then the matching slice of its table, in table order) have
+    their repeats next to each other, and the emoji of the word / of the raw keys are not among those texts [data_ok],
+    no text occurs twice before the raw English item - for EVERY dictionary, option set and composition.  The proviso is
+    checked on every list by the stream (data-exhaustively in the thorough tier); dictionary.json lists one word twice. *)
+Theorem C15_no_repeats :
+  forall (Q : oracles) c buffer typed, data_ok Q c buffer typed ->
+    let '(l, cut, _) := dictionary_suggestion_parts Q c buffer typed in NoDup (map rstr (firstn cut l)).
+Proof. exact ds_no_repeats. Qed.
+
+Theorem C15_no_repeats_whole_list :
+  forall (Q : oracles) c buffer typed, data_ok Q c buffer typed ->
+    (let '(l, cut, _) := dictionary_suggestion_parts Q c buffer typed in ~ In typed (map rstr (firstn cut l))) ->
+    NoDup (map rstr (dictionary_suggestion Q c buffer typed)).
+Proof. exact ds_no_repeats_all. Qed.
+
+(** the proviso on the slice holds in particular when the slice has no repeat at all; without any proviso the clause is
+    false of the code: a table that lists a word twice with another match in between yields a repeated candidate *)
+Theorem C15_repeat_free_slice_suffices : forall l, NoDup l -> repeats_adjacent l.
+Proof. exact nodup_adjacent. Qed.
+
+Definition repeating_dict : oracles :=
+  {| conv := conv test_oracles; hits := hits test_oracles; edist := fun _ _ => 0; ac_sys := ac_sys test_oracles; suffix_of := suffix_of test_oracles;
+     emoticon := fun _ => None; emoji_name := fun _ => None; dict := fun _ _ => [[0x995; 0x9BE; 0x995]; [0x995; 0x9BE; 0x9B2]; [0x995; 0x9BE; 0x995]];
+     emoji_bn := fun _ => None; bijoy := fun s => s |}.
+Example C15_no_repeats_needs_the_proviso :
+  map rstr (dictionary_suggestion repeating_dict {| x_opts := {| o_vowel := false; o_chandra := false; o_kar := false; o_old_reph := false; o_kar_order := false |};
+      x_numpad := false; x_suggest := true; x_english := false; x_ansi := false; x_smart := false |} [0x995; 0x9BE] [107; 97])
+  = [[0x995; 0x9BE]; [0x995; 0x9BE; 0x995]; [0x995; 0x9BE; 0x9B2]; [0x995; 0x9BE; 0x995]].
+Proof. vm_compute. reflexivity. Qed.
+
+(** the proviso is satisfiable: it holds for the composition of the example below *)
+Example C15_data_ok_somewhere :
+  data_ok test_oracles {| x_opts := {| o_vowel := false; o_chandra := false; o_kar := false; o_old_reph := false; o_kar_order := false |};
+      x_numpad := false; x_suggest := true; x_english := true; x_ansi := false; x_smart := true |} [34; 0x995; 0x9BE] [34; 107; 97].
+Proof.
+  constructor.
+  - (* the slice is [ka; ka; kak]: the typed word is itself a dictionary word and comes first in its table *)
+    match goal with |- repeats_adjacent ?s => assert (Es : s = [[0x995; 0x9BE]; [0x995; 0x9BE]; [0x995; 0x9BE; 0x995]]) by (vm_compute; reflexivity); rewrite Es; clear Es end.
+    intros a x m b E.
+    destruct a as [|a0 [|a1 [|a2 a]]]; cbn [app] in E; injection E as E;
+      repeat match goal with
+             | H : _ :: _ = _ :: _ |- _ => injection H as H
+             | H : ?m ++ _ :: _ = _ |- _ => destruct m; cbn [app] in H
+             | H : _ = ?m ++ _ :: _ |- _ => destruct m; cbn [app] in H
+             | H : [] = _ :: _ |- _ => discriminate H
+             | H : _ :: _ = [] |- _ => discriminate H
+             end; subst; try discriminate; repeat constructor.
+  - intros e H. vm_compute in H. discriminate.
+  - intros es H. vm_compute in H. injection H as <-. split; [apply nodup_b_ok; vm_compute; reflexivity|].
+    intros e He Hin. vm_compute in He, Hin. intuition (subst; discriminate).
+Qed.
 
 Example C15_nonvacuous :
   map rstr (dictionary_suggestion test_oracles {| x_opts := {| o_vowel := false; o_chandra := false; o_kar := false; o_old_reph := false; o_kar_order := false |};
@@ -55,3 +105,5 @@ Print Assumptions C15_first_is_composed_text.
 Print Assumptions C15_candidates_classified.
 Print Assumptions C15_sorted.
 Print Assumptions C15_non_decreasing_distance.
+Print Assumptions C15_no_repeats.
+Print Assumptions C15_no_repeats_whole_list.
